@@ -385,6 +385,8 @@ func (ex *Exec) RunPath(fn *ssa.Function, prefix []Decision) (res PathResult) {
 	ex.hb = nil
 	ex.MapRev = false
 	ex.PreemptBound = ex.PreemptBoundDefault
+	ex.clock = 0
+	ex.sleeps = nil
 	main := &goroutine{id: 0, wake: make(chan struct{}), exited: make(chan struct{}), started: true}
 	main.vc.set(0, 1)
 	ex.gs = []*goroutine{main}
